@@ -20,7 +20,7 @@ DESC = {
     "int": "GOther", "MS": "(GNamed 7 false UOther)", "C": "(GNamed 8 false (UStruct []))", "D": "(GNamed 9 false (UStruct []))",
     "*C": "(GPtr (GNamed 8 false (UStruct [])))", "*D": "(GPtr (GNamed 9 false (UStruct [])))", "F": "(GNamed 10 false UOther)",
     "PI": "(GNamed 11 false (UPtr GOther))",
-    "TP": '(GNamed 12 false (UStruct [%s; mkSF "B" %d "wire:\\"-\\""]))' % (A, STRING),
+    "TP": '(GNamed 12 false (UStruct [%s; mkSF "B" %d %s]))' % (A, STRING, coq_str('wire:"-"')),
     "TD": '(GNamed 13 false (UStruct [%s; mkSF "A2" %d ""]))' % (A, INT),
     "jimpl": "(GNamed 14 false (UStruct []))",
 }
@@ -35,7 +35,7 @@ PTR = {        # expressions of static type *K
 NONPTR = [("S{}", S_DESC), ("vS", S_DESC), ("1", "GOther"), ('"x"', "GOther"), ("nil", "GUntypedNil"), ("vI", DESC["I"]), ("C{}", DESC["C"])]
 NAMES = [('"A"', True), ('"B"', True), ('"*"', True), ("`A`", True), ('"a"', True), ('""', True), ('"Z"', True), ('"V"', True), ('"A2"', True),
          ("FieldA", False), ("sName", False), ('"A" + ""', False)]
-IMPL = {("C", "I"), ("*C", "I"), ("*D", "I"), ("J", "I"), ("jimpl", "I"), ("jimpl", "J"), ("*jimpl", "I"), ("*jimpl", "J")}
+IMPL = {("I", "I"), ("J", "J"), ("error", "error"), ("C", "I"), ("*C", "I"), ("*D", "I"), ("J", "I"), ("jimpl", "I"), ("jimpl", "J"), ("*jimpl", "I"), ("*jimpl", "J")}
 for k in list(DESC):
     IMPL.add((k, "any"))
 EXTRA_DECL = 'type TP struct {\n\tA int\n\tB string `wire:"-"`\n}\ntype TD struct {\n\tA  int\n\tA2 int\n}\n'
@@ -53,15 +53,16 @@ def gen_cases(rng, n):
             if rng.random() < 0.12:
                 e, d = rng.choice(NONPTR); argdesc = d
             else:
-                key = rng.choice(["S", "S", "AS", "G[int]", "AnonS", "*S", "PSp", "I", "int", "MS", "C", "TP", "TD", "PI"])
+                key = rng.choice(["S", "S", "S", "S", "AS", "AS", "TP", "TP", "TD", "*S", "*S", "PSp", "G[int]", "AnonS", "I", "int", "MS", "C", "PI"]) if k == "fields" else rng.choice(["S", "S", "S", "S", "AS", "AS", "TP", "TP", "TD", "TD", "C", "G[int]", "AnonS", "*S", "PSp", "I", "int", "MS", "PI"])
                 e = rng.choice(PTR[key]); argdesc = "(GPtr %s)" % DESC[key]
-            names = [rng.choice(NAMES) for _ in range(rng.choice([0, 1, 1, 1, 2, 2, 3] if k == "struct" else [0, 1, 1, 2, 2, 3]))]
+            pool = NAMES[:3] * 4 + NAMES
+            names = [rng.choice(pool) for _ in range(rng.choice([0, 1, 1, 1, 2, 2, 3] if k == "struct" else [0, 1, 1, 2, 2, 3]))]
             go_names = "".join(", " + t for t, _ in names)
             lits = coq_list([lit_term(t, l) for t, l in names])
             if k == "struct":
-                cases.append({"kind": k, "args": "wire.Struct(%s%s), NewA, NewB" % (e, go_names), "res": "S", "term": "(FcStruct %d %s %s %%d)" % (i, argdesc, lits)})
+                cases.append({"kind": k, "args": "wire.Struct(%s%s), NewA, NewB" % (e, go_names), "res": "S", "term": "(FcStruct %d %s %s @OBS@)" % (i, argdesc, lits)})
             else:
-                cases.append({"kind": k, "args": "wire.FieldsOf(%s%s), mk" % (e, go_names), "res": "int", "term": "(FcFields %d %s %s %%d)" % (i, argdesc, lits)})
+                cases.append({"kind": k, "args": "wire.FieldsOf(%s%s), mk" % (e, go_names), "res": "int", "term": "(FcFields %d %s %s @OBS@)" % (i, argdesc, lits)})
         elif k == "bind":
             ik = rng.choice(["I", "I", "J", "any", "C", "int", "*S", "error"]); ck = rng.choice(["C", "*C", "D", "*D", "S", "I", "J", "int", "jimpl"])
             if rng.random() < 0.1:
@@ -75,14 +76,14 @@ def gen_cases(rng, n):
             ident = ik == ck
             impl = (ck, ik) in IMPL or (ik == "any")
             cases.append({"kind": k, "args": "wire.Bind(%s, %s), NewA" % (ie, ce), "res": "int",
-                          "term": "(FcBind %d %s %s %s %s %%d)" % (i, idesc, cdesc, coq_bool(ident), coq_bool(impl))})
+                          "term": "(FcBind %d %s %s %s %s @OBS@)" % (i, idesc, cdesc, coq_bool(ident), coq_bool(impl))})
         else:
             ik = rng.choice(["I", "J", "any", "error", "C", "F", "int"])
             ie, idesc = (rng.choice(NONPTR) if rng.random() < 0.1 else (rng.choice(PTR[ik]), "(GPtr %s)" % DESC[ik]))
             ve, vk, vdesc = rng.choice([("C{}", "C", DESC["C"]), ("&C{}", "*C", DESC["*C"]), ("&D{}", "*D", DESC["*D"]), ("D{}", "D", DESC["D"]), ("jimpl{}", "jimpl", DESC["jimpl"]),
                                         ("IV", "I", DESC["I"]), ("JV", "J", DESC["J"]), ("nil", "nil", "GUntypedNil"), ("1", "int", "GOther"), ("S{}", "S", S_DESC)])
             impl = (vk, ik) in IMPL or (ik == "any" and vk != "nil")
-            cases.append({"kind": k, "args": "wire.InterfaceValue(%s, %s)" % (ie, ve), "res": "int", "term": "(FcIVal %d %s %s %s %%d)" % (i, idesc, vdesc, coq_bool(impl))})
+            cases.append({"kind": k, "args": "wire.InterfaceValue(%s, %s)" % (ie, ve), "res": "int", "term": "(FcIVal %d %s %s %s @OBS@)" % (i, idesc, vdesc, coq_bool(impl))})
     return cases
 
 
@@ -105,6 +106,8 @@ def eng_front(pid, tier, wd, known, replay=None):
         cases = [c for c in cases if c["kind"] == "ival"]
     elif pid == "C12":
         cases = [c for c in cases if c["kind"] in ("struct", "fields")]
+    for j, c in enumerate(cases):      # renumber after filtering: the ids inside the Coq terms are list positions
+        c["term"] = re.sub(r"^\((Fc\w+) \d+ ", lambda m: "(%s %d " % (m.group(1), j), c["term"])
     tools = build_tools()
     root = os.path.join(wd, "front")
     os.makedirs(root, exist_ok=True)
@@ -140,7 +143,7 @@ def eng_front(pid, tier, wd, known, replay=None):
             if re.search(pat, err):
                 cls = n; break
         dist["%s:%d" % (c["kind"], cls)] = dist.get("%s:%d" % (c["kind"], cls), 0) + 1
-        terms.append(c["term"] % cls); keep.append((i, cls, err))
+        terms.append(c["term"].replace("@OBS@", str(cls))); keep.append((i, cls, err))
     mism = []
     for sh_i in range(0, len(terms), 300):
         f = os.path.join(wd, "FCases_%d.v" % (sh_i // 300))
